@@ -30,10 +30,10 @@ LEVEL_NOTE = "truth about emptiness of word classes comes from R-words; integer-
 TECHNIQUE = "recording wrappers + online assertions at hooked state (ruledb.add listener), offline log check"
 ASSUMPTIONS = ["strategies are deterministic", "the ClassDB contracts of C15 (installed here too) vouch for the label map"]
 FLOORS = {
-    "quick": {"nontrivial": 300, "counters": {"faithful.adds_checked": 7000, "faithful.keys_checked": 3000,
+    "quick": {"nontrivial": 250, "counters": {"faithful.adds_checked": 7000, "faithful.keys_checked": 3000,
                                                "faithful.forest_keys_checked": 5000,
                                                "faithful.empty_children_omitted": 300,
-                                               "faithful.forest_empty_rules": 300,
+                                               "faithful.forest_empty_rules": 220,
                                                "faithful.final_key_sets_compared": 200,
                                                "classdb.get_label_checked": 20000},
               "seen": {"faithful.strategy": 8}},
